@@ -144,12 +144,12 @@ func expect(tier string) []string {
 	for _, l := range mod1Literals(10) {
 		e = append(e, "mod1="+l.name)
 	}
-	e = append(e, "mod1-length=2", "mod1-length=3")
+	e = append(e, "mod1-length=2", "mod1-length=3", "mod1=ignored-field/DoubleAngle-with-sin")
 	e = append(e, "history=bgv-standard", "history=bgv-invariant", "history=ckks-monomial", "history=ckks-chebyshev[-1,1]")
 	for _, sq := range histSequences {
 		e = append(e, "history-sequence="+histSeqName(sq))
 	}
-	e = append(e, "composite=inverse.GoldschmidtDivisionNew", "composite=inverse.EvaluatePositiveDomainNew", "composite=inverse.EvaluateNegativeDomainNew", "composite=inverse.EvaluateFullDomainNew", "inverse-normalisation=yes", "inverse-normalisation=no", "composite=doc-examples", "composite=default-sign-slot-judged", "composite=default-sign-slot-tight", "composite-bootstrapped=yes", "composite-bootstrapped=no",
+	e = append(e, "composite=inverse.GoldschmidtDivisionNew", "composite=inverse.EvaluatePositiveDomainNew", "composite=inverse.EvaluateNegativeDomainNew", "composite=inverse.EvaluateFullDomainNew", "inverse-normalisation=yes", "inverse-normalisation=no", "composite=doc-examples", "composite=default=comparison.NewEvaluator/default-sign-polynomial", "composite=default=inverse.EvaluateFullDomainNew/default-sign-polynomial", "composite=default-sign-slot-judged", "composite=default-sign-slot-tight", "composite-bootstrapped=yes", "composite-bootstrapped=no",
 		"bignum=Evaluate/monomial", "bignum=Evaluate/chebyshev[-3,5]", "bignum=ChangeOfBasis", "bignum=Depth", "bignum=Factorize/monomial", "bignum=Factorize/chebyshev", "bignum=ChebyshevApproximation")
 	return e
 }
